@@ -11,7 +11,7 @@ from ..session import NONSMOOTH, gen_solver, run_solver, solver_options, check_s
 
 PROPERTY = "C18"
 LEVEL = "exploration"
-BUDGET = {"quick": 480, "thorough": 30000}
+BUDGET = {"quick": 480, "thorough": 12000}
 CHUNK = 2
 RUN_TIMEOUT_S = 1500
 MAX_DISCARD_FRACTION = 0.5
